@@ -95,6 +95,7 @@ type Result struct {
 	LibStrict string // the same verifier with ecdsa.VerifyNonMalleably
 	SetupErr string // non-empty if key material / contexts could not be made
 	BaseMul  func(k *big.Int) []byte // compressed k·G on cfg.Curve (the implementation's curve)
+	BaseXY   func(k *big.Int) (x, y *big.Int) // affine coordinates of k·G (nil, nil for the identity)
 }
 
 var (
@@ -185,6 +186,19 @@ func run[P curves.Point[P, B, S], B algebra.PrimeFieldElement[B], S algebra.Prim
 			return nil
 		}
 		return curve.ScalarBaseMul(s).ToCompressed()
+	}
+	res.BaseXY = func(k *big.Int) (*big.Int, *big.Int) {
+		s, err := suite.ScalarField().FromWideBytes(new(big.Int).Mod(k, res.Order).Bytes())
+		if err != nil {
+			return nil, nil
+		}
+		pt := curve.ScalarBaseMul(s)
+		x, e1 := pt.AffineX()
+		y, e2 := pt.AffineY()
+		if e1 != nil || e2 != nil {
+			return nil, nil
+		}
+		return x.Cardinal().Big(), y.Cardinal().Big()
 	}
 	pol, err := keys.ParsePolicy(cfg.Policy)
 	if err != nil {
